@@ -263,7 +263,8 @@ class Q:
             second = None
             if self.cross:
                 second = cvc5_check(self.s)
-                if second not in (r, "skipped"):
+                # a disagreement is sat against unsat; a time-out or error of the second solver is recorded, not a disagreement
+                if second in ("sat", "unsat") and r in ("sat", "unsat") and second != r:
                     self.rep.add_query(name, f"DISAGREE z3={r} cvc5={second}", dt)
                     raise Inconclusive(f"solvers disagree on {name}: z3={r} cvc5={second}")
             self.rep.add_query(name, r, dt, **({"second_solver": "cvc5:" + second} if second else {}))
@@ -274,7 +275,7 @@ class Q:
             self.s.pop()
 
 
-def cvc5_check(solver, timeout_ms=60000):
+def cvc5_check(solver, timeout_ms=20000):
     """Re-decide the current assertions of a z3 solver with the cvc5 wheel."""
     try:
         import cvc5
